@@ -3,6 +3,7 @@ package main
 import (
 	"context"
 	"fmt"
+	"strings"
 
 	"github.com/canopy-network/canopy/fsm"
 	"github.com/canopy-network/canopy/lib"
@@ -16,6 +17,19 @@ import (
 // after signing (fee, memo, creation height), a transfer signed by an ed25519 / secp256k1 / eth-secp256k1 key. Every variant
 // goes through the real ApplyTransactions on the real FSM; the harness records which key REALLY signed exactly these bytes
 // (0 = none), whether it executed, and the ledger before and after.
+// wBA receives the blocks as cases of the two-pass model (BlockAuth.v): per transaction what the first pass must see and what was observed
+var wBA *sim.CaseWriter
+
+func baCode(res *lib.ApplyBlockResults, executed map[string]bool, tx []byte) int {
+	if executed[string(tx)] {
+		return 0
+	}
+	if strings.Contains(failedOf(res, tx), "invalid signature") {
+		return 1
+	}
+	return 2
+}
+
 func authMode(r *sim.Rng, nStates, perState int, cw, cwBlk *sim.CaseWriter) {
 	for sI := 0; sI < nStates; sI++ {
 		nKeys := 9
@@ -192,7 +206,11 @@ func authMode(r *sim.Rng, nStates, perState int, cw, cwBlk *sim.CaseWriter) {
 			n.FSM.Reset() // both presentations of a block start from the committed state (the single-transaction cases above leave theirs applied)
 			h := n.FSM.Height()
 			var txs [][]byte
-			var lits []string
+			var lits, classes []string
+			sendFee := uint64(10000)
+			if fp, e := n.FSM.GetParamsFee(); e == nil && fp != nil {
+				sendFee = fp.SendFee // governance may have changed it in this state's history
+			}
 			// senders: the BLS keys and the accounts under the other signature schemes (ed25519, secp256k1, eth)
 			pool := make([]crypto.PrivateKeyI, 0, nKeys+3)
 			for i := 0; i < nKeys; i++ {
@@ -205,7 +223,7 @@ func authMode(r *sim.Rng, nStates, perState int, cw, cwBlk *sim.CaseWriter) {
 			for k := 0; k < 3+r.Intn(4); k++ {
 				from, att := r.Intn(nKeys), r.Intn(nKeys)
 				to := crypto.NewAddress(sim.BLSKey(r.Intn(9)).Addr)
-				t2 := &lib.Transaction{MessageType: fsm.MessageSendName, CreatedHeight: h, Time: uint64(1000*b + k + 1), Fee: 10000, NetworkId: 1, ChainId: 1, Memo: fmt.Sprintf("b%d-%d", b, k)}
+				t2 := &lib.Transaction{MessageType: fsm.MessageSendName, CreatedHeight: h, Time: uint64(1000*b + k + 1), Fee: sendFee, NetworkId: 1, ChainId: 1, Memo: fmt.Sprintf("b%d-%d", b, k)}
 				t2.Msg, _ = lib.NewAny(&fsm.MessageSend{FromAddress: addrOf(from), ToAddress: to.Bytes(), Amount: 1 + uint64(k)})
 				signer := uint64(0)
 				switch r.Intn(4) {
@@ -225,6 +243,17 @@ func authMode(r *sim.Rng, nStates, perState int, cw, cwBlk *sim.CaseWriter) {
 				}
 				bz, _ := lib.Marshal(t2)
 				txs = append(txs, bz)
+				// what the first pass must see: honest = CheckTx passes, one good job; validly signed by another key = the job is
+				// submitted (and verifies) before the signer is compared with the authorized signers, CheckTx fails; the owner's
+				// key over somebody else's signature = CheckTx passes, the job does not verify
+				switch signer {
+				case 1:
+					classes = append(classes, "(true, [true])")
+				case 2:
+					classes = append(classes, "(false, [true])")
+				default:
+					classes = append(classes, "(true, [false])")
+				}
 				signerLit, fromLit := "0%N", sim.AddrN(addrOf(from))
 				switch signer {
 				case 1:
@@ -245,6 +274,13 @@ func authMode(r *sim.Rng, nStates, perState int, cw, cwBlk *sim.CaseWriter) {
 			var items []string
 			for i, l := range lits {
 				items = append(items, fmt.Sprintf("(%s, %s)", l, sim.CoqBool(executed[string(txs[i])])))
+			}
+			if wBA != nil && aerr == nil {
+				var es []string
+				for i := range txs {
+					es = append(es, fmt.Sprintf("(%s, %d%%N)", classes[i], baCode(res, executed, txs[i])))
+				}
+				wBA.Add("mkBAC "+sim.CoqList(es), map[string]any{"txs": len(txs), "kind": "transfers"})
 			}
 			n.FSM.Reset()
 			// the same block presented again (a proposal re-validated in a later round, a mempool re-check): what was refused the first
@@ -298,7 +334,7 @@ func dependentBlocks(r *sim.Rng, n *sim.FNode, sI int, cwBlk *sim.CaseWriter) {
 			return bz
 		}
 		var txs [][]byte
-		var lits []string
+		var lits, classes []string
 		add := func(bz []byte, honest bool) {
 			if bz == nil {
 				return
@@ -306,8 +342,11 @@ func dependentBlocks(r *sim.Rng, n *sim.FNode, sI int, cwBlk *sim.CaseWriter) {
 			txs = append(txs, bz)
 			if honest {
 				lits = append(lits, sim.AddrN(owner.Addr)+", "+sim.AddrN(owner.Addr))
+				classes = append(classes, "(true, [true])")
 			} else {
 				lits = append(lits, "0%N, "+sim.AddrN(owner.Addr))
+				// on the state at the start of the block the object does not exist: CheckTx fails before any signature is looked at
+				classes = append(classes, "(false, [])")
 			}
 		}
 		kind := "stake"
@@ -350,6 +389,13 @@ func dependentBlocks(r *sim.Rng, n *sim.FNode, sI int, cwBlk *sim.CaseWriter) {
 				for _, t := range res.Txs {
 					executed[string(t)] = true
 				}
+			}
+			if pres == 0 && wBA != nil && aerr == nil {
+				var es []string
+				for i := range txs {
+					es = append(es, fmt.Sprintf("(%s, %d%%N)", classes[i], baCode(res, executed, txs[i])))
+				}
+				wBA.Add("mkBAC "+sim.CoqList(es), map[string]any{"txs": len(txs), "kind": "dependent-" + kind})
 			}
 			n.FSM.Reset()
 			if pres == 0 {
